@@ -638,6 +638,21 @@ func installPrefer(st *state) {
 	})
 }
 
+// The scenarios. In the default schedule application steps run before frames,
+// so T2/ENV are gated on T1's progress (pauseAt/envAt) to place them mid-stream;
+// single deviations then shift them around.
+//
+//	D-topics     ConsumeTopics from the start; move of t/1 (+append) after the first poll
+//	D-rc         read_committed; PollFetches as second poll (pause strip of takeBuffered)
+//	D-parts      ConsumePartitions starting mid-batch (t/0@2 inside the committed txn, t/1@6 inside the aborted one)
+//	D-split      FetchMaxPartitionBytes=200: two batches per response, many round trips
+//	D-early      the other partition moves while its first Fetch request is still queued: NOT_LEADER (KIP-951 hint) stops the session while the first buffered fetch is partially polled
+//	D-late       as D-early, first poll 100 ms late: the session stop discards an untouched buffered fetch
+//	D-pause0-rc  t/0 paused before the first fetch, resumed after two polls; read_committed
+//	D-onesource  both partitions on broker 0 (one buffered fetch holds both); t/1 moves to broker 1
+//	D-prefer     broker 1 redirects t/1 to follower broker 0 (PreferredReadReplica), one append to read from the follower
+//	D-slow       1.5 s of processing after every poll, MetadataMaxAge 2 s: the periodic metadata refresh migrates t/1 while its fetch is buffered
+//	D-move-idle  move of t/1 with no append in the new epoch (fires on the unchanged tree, see meta.json)
 var variants = []*variant{
 	{name: "D-topics", cycle: []int{1, 3, 0}, order: "T2,ENV,T1", pauseAt: 1, envAt: 1},
 	{name: "D-rc", cycle: []int{1, 0, 3}, rc: true, order: "T2,ENV,T1", pauseAt: 1, envAt: 1},
